@@ -139,8 +139,9 @@ def _backend(n):
 
 # which functions' branching skeleton each property freezes (by root function; closures follow their root)
 GROUP_PRED = {
-    'C01': lambda n: n.startswith(MEMFS_ALL) and not n.startswith('<sys::fs::memfs::file::'),
-    'C02': lambda n: n.startswith(('<sys::fs::stdfs::',)) and ' as sys::fs::vfs::VirtualFileSystem>' not in n,
+    'C01': lambda n: (n.startswith(MEMFS_ALL) and not n.startswith('<sys::fs::memfs::file::')) or n.startswith('<errors::'),
+    'C02': lambda n: (n.startswith(('<sys::fs::stdfs::',)) and ' as sys::fs::vfs::VirtualFileSystem>' not in n) or n.startswith('<errors::'),
+    'C13': lambda n: n.startswith(('<sys::fs::vfs::Vfs>::', '<sys::fs::vfs::Vfs as std::', '<sys::fs::entry::VfsEntry as std::')),
     'C03': lambda n: n.startswith((M_, MV, '<sys::fs::memfs::vfs::MemfsGuard', '<sys::fs::memfs::vfs::MemfsInner', '<sys::fs::memfs::entry::MemfsEntry>')),
     'C06': lambda n: _backend(n) and _item(n) in FILE_IO,
     'C07': lambda n: n.startswith('<sys::fs::memfs::file::MemfsFile'),
@@ -152,7 +153,7 @@ GROUP_PRED = {
     or n.startswith(('sys::fs::chmod::', '<sys::fs::chmod::', 'sys::fs::chown::', '<sys::fs::chown::')),
     'C15': lambda n: n.startswith('sys::fs::path::') and _item(n) not in ('expand', 'home_dir'),
     'C17': lambda n: n in ('sys::fs::path::expand', 'sys::fs::path::home_dir'),
-    'C18': lambda n: n.startswith('sys::user::') or (_backend(n) and _item(n) == 'config_dir'),
+    'C18': lambda n: n.startswith(('sys::user::', '<sys::user::User')) or (_backend(n) and _item(n) == 'config_dir'),
     'C19': lambda n: n.startswith(('<str as core::', '<std::string::String as core::', '<T as core::iter::', '<std::option::Option<T> as core::', '<std::iter::Peekable<I> as core::',
                                    '<core::peekable::', '<core::defer::', 'core::defer::', '<std::path::Component', '<std::ffi::OsStr as core', '<std::path::Path as core::')),
 }
